@@ -126,3 +126,10 @@ Definition step (s : inflights) (o : op) : Res inflights :=
   | OSetCap c => set_cap s c
   | OMaybeFree => Ok (maybe_free_buffer s)
   end.
+
+(* A history: run a list of operations, stopping at the first panic. *)
+Fixpoint run (s : inflights) (ops : list op) : Res inflights :=
+  match ops with
+  | [] => Ok s
+  | o :: rest => s' <- step s o ;; run s' rest
+  end.
